@@ -255,6 +255,28 @@ fn record(cell: &Cell, rep: &mut Report) {
     for (sig, msg) in check(&run) {
         rep.violation(format!("stack:{}", sig), format!("{}: {}", cell.to_json(), msg), cell.to_json());
     }
+    // the same cell through a builder driven differently: a checker set first and then cleared (or overridden by
+    // the configured one), and the options given in the opposite order; nothing of that may change an answer
+    if matches!(cell.op, MOp::Get | MOp::Ensure | MOp::Gou(_)) && cell.contents.iter().filter(|&&c| c != 0).count() >= 1 {
+        for style in [3u8, 4] {
+            crate::ops::BUILDER_STYLE.with(|b| b.set(style));
+            let r2 = run_cell(cell);
+            crate::ops::BUILDER_STYLE.with(|b| b.set(0));
+            rep.evaluations += 1;
+            rep.states += 1;
+            rep.traces += 1;
+            rep.transitions += r2.trace.len() as u64;
+            rep.count("builder_style_cells", 1);
+            let mut seen = std::collections::BTreeSet::new();
+            for (sig, msg) in check(&r2) {
+                if seen.insert(sig.clone()) {
+                    let mut case = cell.to_json();
+                    case["builder_style"] = serde_json::json!(style);
+                    rep.violation(format!("stack:{}", sig), format!("{} [builder style {}]: {}", cell.to_json(), style, msg), case);
+                }
+            }
+        }
+    }
     unreadable_first_copy_cases(cell, &run, rep);
 }
 
@@ -408,5 +430,6 @@ pub fn replay(case: &Value, rep: &mut Report) {
         record(&Cell::from_json(&case["cell"]), rep);
         return;
     }
+    // (builder styles 3 and 4 are re-run by record itself)
     record(&Cell::from_json(case), rep);
 }
